@@ -251,4 +251,83 @@ PROPS = {
                          "client.state.lt-after-401": 500, "client.state.lt-authenticated": 500, "client.state.lt-after-438": 500,
                          "client.state.st-unlearned": 200, "client.state.st-learned": 200},
     },
+    "C07": {
+        "title": "Short-term credentials: only authenticated messages are delivered",
+        "profiles": ["dev"],
+        "rule": SIMRULE + ("C07: clients with short-term credentials (algorithm unset / SHA-1 / SHA-256 preconfigured), both "
+                 "transports; server replies per transaction drawn from {valid MI, valid SHA256, both, none, corrupted MAC, MAC "
+                 "under another password, the non-agreed algorithm, duplicates} for success and error responses and for "
+                 "indications. Outgoing oracle (reference parse + HMAC): USERNAME = configured, both integrity attributes while "
+                 "no algorithm is agreed, exactly the agreed one afterwards, each verifying under the password, password never "
+                 "on the wire. Incoming oracle: each delivered buffer is classified FROM ITS BYTES (admitted integrity attributes "
+                 "per the ordering rule, which verify under the password): must-not-deliver (nothing acceptable verifies; a "
+                 "response carrying both), must-deliver (exactly one, verifying, acceptable algorithm), learning only from a "
+                 "delivered response; failing response on reliable transport => TransactionFailed(ProtectionViolated), on "
+                 "unreliable => Err, no event, retransmissions continue, final failure ProtectionViolated iff a response of "
+                 "that transaction definitely failed authentication, TimedOut iff none did. Left open where the statement is "
+                 "silent (indication with both attributes, response with both on reliable transport, buffers the library "
+                 "reports as undecodable). Non-trivial = every conversation."),
+        "assumptions": [STABLE],
+        "min_counters": {"c07.outgoing-checked": 10000, "c07.algorithm-learned": 300, "c07.reliable-failing-responses": 200,
+                         "c07.unreliable-failing-responses": 500, "cred.timeout-after-failed-auth": 50,
+                         "c07.incoming.response:mi-valid:none-agreed": 50, "c07.incoming.response:both:none-agreed": 20,
+                         "c07.incoming.indication:mi-valid:sha1-agreed": 10},
+    },
+    "C08": {
+        "title": "Long-term credentials: challenge, retry and authenticated delivery",
+        "profiles": ["dev"],
+        "rule": SIMRULE + ("C08: long-term clients, both transports, application attribute lists that pre-populate credential / "
+                 "integrity attributes; scripted prefixes (401; 401+success; 401+success+438; 401+438; re-challenge) followed by a "
+                 "random server: 401 with/without algorithms ([MD5], [SHA256], both orders, unsupported only, unsupported "
+                 "around a supported one), anonymity bit, plain/cookie nonce, new realm, missing REALM / NONCE, cookie demanding "
+                 "absent PASSWORD-ALGORITHMS; 438 with/without integrity; authenticated, unauthenticated, wrongly keyed, "
+                 "wrong-kind success and error responses; indications. Oracle 1 (every request): before any challenge no "
+                 "credential attribute at all; afterwards USERNAME or USERHASH=SHA-256(user:realm), REALM, most recent NONCE, "
+                 "PASSWORD-ALGORITHMS equal to the offer, PASSWORD-ALGORITHM one of the offered supported entries (the client's "
+                 "choice), integrity SHA-256/SHA-1 verifying under the reference key = what an RFC 8489 9.2.4 server accepts; "
+                 "password bytes never on the wire; send_indication refused. Oracle 2 (deliveries, classified from bytes): "
+                 "well-formed 401 without integrity => Retry; 438 with new nonce => Retry and the new nonce is used; success / "
+                 "ordinary error delivered only if the expected integrity verifies (must-deliver when it verifies under the key "
+                 "the client showed); indications refused. The oracle adopts a challenge only when the client emitted Retry for "
+                 "it. Non-trivial = every conversation."),
+        "assumptions": [STABLE, "which supported algorithm is 'chosen' is left to the client (RFC: first supported; library: prefers SHA-256)"],
+        "min_counters": {"c08.challenges-accepted": 2000, "c08.stale-nonce-accepted": 300, "c08.requests.First": 1000,
+                         "c08.requests.After401": 1000, "c08.requests.After438": 300, "c08.requests.Authenticated": 500,
+                         "c08.requests-accepted-by-reference-server": 500, "c08.incoming.success:authenticated": 500,
+                         "c08.incoming.success:wrong-integrity": 50, "c08.incoming.success:no-integrity": 50,
+                         "c08.indication-refused": 100, "c08.indications-received": 50},
+    },
+    "C10": {
+        "title": "FINGERPRINT is the RFC CRC, catches small corruptions, is enforced by the client",
+        "profiles": ["dev"],
+        "rule": ("codec: library-encoded messages ending in FINGERPRINT (alone, after MI, after SHA256, after both): value == "
+                 "reference CRC-32/ISO-HDLC over the prefix with adjusted length xor 0x5354554e; encoder output accepted "
+                 "(validating decode returns a FINGERPRINT; validate(get_input_text())); after EVERY single-bit flip at every "
+                 "position and 6 single-byte substitutions (+1, -1, ~, 3 random) at every offset the altered exact-length buffer "
+                 "must not be accepted as carrying a valid FINGERPRINT. client: " + SIMRULE + "clients of every mechanism with "
+                 "fingerprints on: every emitted packet ends with a FINGERPRINT carrying the reference CRC; a received response or "
+                 "indication whose first FINGERPRINT is missing or wrong (classified from bytes) must give Err, no events, and "
+                 "leave its transaction outstanding (hook + later completion); a valid one on a mechanism-less client is "
+                 "delivered. Non-trivial = every message / conversation."),
+        "assumptions": ["a FINGERPRINT with a correct CRC that is not the last attribute is left open (neither missing nor wrong)"],
+        "min_counters": {"c10.bit-faults-rejected": 300000, "c10.byte-faults-rejected": 200000, "c10.untampered-accepted": 1000,
+                         "c10.emitted-fingerprint-checked": 10000, "c10.bad-or-missing-fingerprint-received": 1000,
+                         "c10.transaction-survived-bad-fingerprint": 200, "c10.good-fingerprint-delivered": 100},
+    },
+    "C13": {
+        "title": "Every packet the client emits is well formed and retransmissions are identical",
+        "profiles": ["dev"],
+        "rule": SIMRULE + ("C13: application attribute lists of 0-8 attributes in any order with duplicates and pre-populated "
+                 "USERNAME / USERHASH / REALM / NONCE / PASSWORD-ALGORITHM(S) / MESSAGE-INTEGRITY / -SHA256 / FINGERPRINT, all "
+                 "mechanisms x fingerprint x transports x credential states (scripted prefixes). Oracle: strict reference parse "
+                 "of every emitted request and indication: asked class/method, fresh id equal to the returned one, attribute "
+                 "sequence = application attributes (one per type, first-insertion position, last value, values equal to the "
+                 "reference encoding, minus the types the mechanism owns) then only mechanism-owned attributes each at most once, "
+                 "then <=1 MI, <=1 SHA256, <=1 FINGERPRINT in that order at the end, each verifying (mechanism key; the "
+                 "application's own key without mechanism; CRC); retransmissions byte-identical (timer monitor). Non-trivial = "
+                 "every history."),
+        "assumptions": [STABLE, "which long-term credential attributes are required in which state is C08's business"],
+        "min_counters": {"output.packets-checked": 20000, "c13.application-lists-checked": 15000, "c06.retransmissions": 2000,
+                         "c13.mech.none": 100, "c13.mech.short-term": 100, "c13.mech.long-term": 100},
+    },
 }
